@@ -253,6 +253,16 @@ func init() {
 		st, _ := sesh.OpenStream()
 		var ps *Stream
 		buf := make([]byte, max+64)
+		// via=readfrom: the datagrams come from a local datagram socket through Stream.ReadFrom, the way a
+		// relay (common.Copy) feeds a stream, instead of through Stream.Write
+		viaReadFrom := c.P("via", "write") == "readfrom"
+		var src *vnetConn
+		if viaReadFrom {
+			var dst *vnetConn
+			src, dst = vnet.New().Pair("local", true)
+			go st.ReadFrom(dst)
+			defer src.Close()
+		}
 		for size := 1; size <= max+2; size += step {
 			if step > 1 && size+step > max-3 {
 				// the last strides are single steps: max-3 .. max+2 are always visited
@@ -266,7 +276,35 @@ func init() {
 			for i := range d {
 				d[i] = byte(size + i)
 			}
-			n, err := st.Write(d)
+			var n int
+			var err error
+			if viaReadFrom {
+				if size > max {
+					break // (a socket read of a larger datagram is cut by the operating system, not by Cloak)
+				}
+				n, err = src.Write(d)
+				if ps == nil {
+					cn, _ := peer.Accept()
+					ps = cn.(*Stream)
+				}
+				k, rerr := ps.Read(buf) // waits for the frame
+				rep.Executions++
+				rep.Transitions++
+				if rerr != nil || !bytes.Equal(buf[:k], d) {
+					rep.Violations = append(rep.Violations, vx.Violation{Clause: "datagram-size", Sig: vx.Sig(c.Job, "datagram-size"), Msg: fmt.Sprintf("a datagram of %d bytes (max %d) relayed through ReadFrom was read back as %d bytes, err %v", size, max, k, rerr), Case: map[string]any{"size": size}})
+					rep.Exhaustive = false
+					rep.CapHit = "stopped at first violation"
+					break
+				}
+				if len(r.net.Tap) != before+1 || len(r.net.Tap[before].Data) > 16401 {
+					rep.Violations = append(rep.Violations, vx.Violation{Clause: "datagram-size", Sig: vx.Sig(c.Job, "datagram-size"), Msg: fmt.Sprintf("a datagram of %d bytes relayed through ReadFrom put %d messages on the wire (first of %d bytes)", size, len(r.net.Tap)-before, len(r.net.Tap[before].Data))})
+					rep.Exhaustive = false
+					break
+				}
+				rep.Outcomes["delivered"]++
+				continue
+			}
+			n, err = st.Write(d)
 			rep.Executions++
 			rep.Transitions++
 			msg := ""
@@ -334,10 +372,17 @@ func init() {
 		}
 		jobs = append(jobs, vx.Job{Scenario: "mux.dgramreuse", Params: vx.P("pool", "recycle"), Bound: b(1, 2), Weight: 3},
 			vx.Job{Scenario: "mux.dgramreuse", Bound: b(1, 2), Weight: 3},
+			vx.Job{Scenario: "mux.dgramreuse", Params: vx.P("pool", "recycle", "via", "readfrom", "overlap", "1"), Bound: b(2, 3), Weight: 4},
 			vx.Job{Scenario: "dgram.deadline", Bound: b(2, 3), Weight: 3},
 			vx.Job{Scenario: "dgram.deadline", Params: vx.P("delay", "1", "pool", "recycle"), Bound: b(2, 3), Weight: 3})
 		jobs = append(jobs, vx.Job{Scenario: "udp.route", Weight: 6})
 		jobs = append(jobs, vx.Job{Scenario: "udp.route", Params: vx.P("sameport", "1"), Weight: 5})
+		// every datagram size up to what one frame can carry (16132 bytes), fed through Stream.ReadFrom as a relay does
+		for _, m := range []string{"plain", "aes-256-gcm"} {
+			jobs = append(jobs, vx.Job{Scenario: "dgram.sizes", Params: vx.P("method", m, "step", fmt.Sprint(b(37, 1)), "via", "readfrom"), Weight: 3})
+		}
+		// answers of the datagram service at the largest size ck-client's 8192-byte socket buffer lets through
+		jobs = append(jobs, vx.Job{Scenario: "udp.route", Params: vx.P("anslens", "8000,8187,8188"), Weight: 5})
 		for i := range jobs {
 			jobs[i].BudgetS = b(100, 900)
 		}
@@ -361,7 +406,12 @@ func init() {
 					if err != nil {
 						vrt.Fail("no-error-on-healthy-session", "OpenStream: %v", err)
 					}
-					st.Write(dgram(0, round, 7))
+					if c.P("via", "write") == "readfrom" {
+						// the earlier stream was fed by a relay: ReadFrom forwards one datagram and returns at the end of its source
+						st.ReadFrom(&chunkReader{chunks: [][]byte{dgram(0, round, 7)}})
+					} else {
+						st.Write(dgram(0, round, 7))
+					}
 					conn, err := r.srv.Accept()
 					if err != nil {
 						vrt.Fail("no-error-on-healthy-session", "Accept: %v", err)
@@ -390,9 +440,26 @@ func init() {
 					ss[i] = conn.(*Stream)
 				}
 				quiesce()
-				for i := 0; i < 2; i++ {
-					cs[i].Write(dgram(i+1, 1, 9+i))
-					ss[i].Write(dgram(i+1, 2, 11+i))
+				if c.P("overlap", "0") == "1" {
+					// the two streams' senders run at the same time
+					var wg sync.WaitGroup
+					for i := 0; i < 2; i++ {
+						i := i
+						wg.Add(1)
+						vrt.Go(fmt.Sprintf("sender%d", i), func() {
+							defer wg.Done()
+							cs[i].Write(dgram(i+1, 1, 9+i))
+						})
+					}
+					wg.Wait()
+					for i := 0; i < 2; i++ {
+						ss[i].Write(dgram(i+1, 2, 11+i))
+					}
+				} else {
+					for i := 0; i < 2; i++ {
+						cs[i].Write(dgram(i+1, 1, 9+i))
+						ss[i].Write(dgram(i+1, 2, 11+i))
+					}
 				}
 				quiesce()
 				for i := 1; i >= 0; i-- {
